@@ -21,9 +21,13 @@
 //
 // Binary mode: every r event is one process `$VERIF_BUILD/spok --debug --json [--force] <tasks>` (built with -tags
 // verif) with cwd = the project directory <sandbox>/p, HOME = <sandbox>, PATH = <sandbox>/bin (holds `kill` only),
-// NO_COLOR=1.  The spokfile is written once and never changes; every task has ONE command
+// NO_COLOR=1.  The spokfile is written once and never changes; every task has TWO commands
 //
-//	c=0; while read -r l; do c=$((c+1)); done < $LOG; if test $((c+1)) = "$KILLAT"; then echo T > $CTL/killed; kill -9 $$; fi; echo T >> $LOG; test ! -e $CTL/fail.T
+//	c=0; while read -r l; do case "$l" in *.2) c=$((c+1));; esac; done < $LOG; if test $((c+1)) = "$KILLAT"; then echo T > $CTL/killed; kill -$KILLSIG $$; fi; echo T >> $LOG
+//	echo T.2 >> $LOG; test ! -e $CTL/fail.T
+//
+// (a task has COMPLETED when its second command has run: the line `T.2` is in the log; S<j> is K<j> with SIGTERM instead
+// of SIGKILL — a process that catches the signal and "stops cleanly" after the first command has not completed the task)
 //
 // so that  K<j>  = the j-th command started in this invocation really SIGKILLs the spok process (KILLAT=j; `$$` is
 // the pid of spok under mvdan/sh), P<k> / P<k>t<n> = SPOK_VERIF_CRASH=k / SPOK_VERIF_TEAR=n (the binary SIGKILLs itself
@@ -151,9 +155,10 @@ func (t template) binText() string {
 		}
 		args = append(args, td.tasks...)
 		n := td.name
-		cmd := `c=0; while read -r l; do c=$((c+1)); done < $LOG; if test $((c+1)) = "$KILLAT"; then echo ` + n +
-			` > $CTL/killed; kill -9 $$; fi; echo ` + n + ` >> $LOG; test ! -e $CTL/fail.` + n
-		fmt.Fprintf(&b, "task %s(%s) {\n    %s\n}\n\n", n, strings.Join(args, ", "), cmd)
+		cmd1 := `c=0; while read -r l; do case "$l" in *.2) c=$((c+1));; esac; done < $LOG; if test $((c+1)) = "$KILLAT"; then echo ` + n +
+			` > $CTL/killed; kill -$KILLSIG $$; fi; echo ` + n + ` >> $LOG`
+		cmd2 := `echo ` + n + `.2 >> $LOG; test ! -e $CTL/fail.` + n
+		fmt.Fprintf(&b, "task %s(%s) {\n    %s\n    %s\n}\n\n", n, strings.Join(args, ", "), cmd1, cmd2)
 	}
 	return b.String()
 }
@@ -410,6 +415,7 @@ type invocation struct {
 
 type crashSpec struct {
 	killAt  int  // K<j>
+	term    bool // S<j>: the same with SIGTERM instead of SIGKILL
 	pointAt int  // P<k>
 	tear    int  // t<n>, -1 = none
 	errAt   int  // E<j>
@@ -427,6 +433,9 @@ func parseCrashSpec(s string) (crashSpec, bool) {
 		cs.errFrom = true
 	case strings.HasPrefix(s, "K"):
 		cs.killAt, _ = strconv.Atoi(s[1:])
+	case strings.HasPrefix(s, "S"):
+		cs.killAt, _ = strconv.Atoi(s[1:])
+		cs.term = true
 	case strings.HasPrefix(s, "P"):
 		q := strings.Split(s[1:], "t")
 		cs.pointAt, _ = strconv.Atoi(q[0])
@@ -590,7 +599,10 @@ func invokeBinary(sb *sandbox, sel, req []string, force bool, cs crashSpec, fail
 	}
 	argv = append(argv, req...)
 	env := []string{"HOME=" + sb.root, "PATH=" + sb.bin, "NO_COLOR=1", "TERM=dumb", "LOG=" + sb.log, "CTL=" + sb.ctl,
-		"KILLAT=" + strconv.Itoa(cs.killAt)}
+		"KILLAT=" + strconv.Itoa(cs.killAt), "KILLSIG=9"}
+	if cs.term {
+		env[len(env)-1] = "KILLSIG=15"
+	}
 	if cs.pointAt > 0 {
 		env = append(env, "SPOK_VERIF_CRASH="+strconv.Itoa(cs.pointAt))
 		if cs.tear >= 0 {
@@ -640,6 +652,10 @@ func invokeBinary(sb *sandbox, sel, req []string, force bool, cs crashSpec, fail
 		if l == "" {
 			continue
 		}
+		if !strings.HasSuffix(l, ".2") {
+			continue // the first command of a task: the task has completed when the second one has run
+		}
+		l = strings.TrimSuffix(l, ".2")
 		inv.calls = append(inv.calls, call{l, !fail[l]})
 		called[l] = true
 		if fail[l] {
@@ -672,7 +688,7 @@ func invokeBinary(sb *sandbox, sel, req []string, force bool, cs crashSpec, fail
 		}
 	}
 	switch {
-	case sig == syscall.SIGKILL && cs.killAt > 0:
+	case (sig == syscall.SIGKILL || sig == syscall.SIGTERM && cs.term) && cs.killAt > 0:
 		inv.errClass = "crash"
 		inv.crash = fmt.Sprintf("K%d", len(inv.calls)+1)
 		if len(inv.calls)+1 != cs.killAt || inv.killed == "" {
@@ -1176,7 +1192,7 @@ func crashFamily(w *bufio.Writer, t int, preDepth int, maxPoint int, tears []int
 func binaryKillFamily(w *bufio.Writer, stride, offset int) int {
 	tears := []int{0, 9, 70, 100000} // the cache file of two tasks is 15 / 79 / 143 bytes long
 	specs := func(maxPoint int) []string {
-		out := []string{"K1", "K2"}
+		out := []string{"K1", "K2", "S1", "S2"}
 		for k := 1; k <= maxPoint; k++ {
 			out = append(out, fmt.Sprintf("P%d", k))
 			if k%2 == 1 {
@@ -1208,6 +1224,11 @@ func binaryKillFamily(w *bufio.Writer, stride, offset int) int {
 			for _, cs := range specs(10) {
 				emit(t, "r.AB.0.-", "c", "r.AB."+f+"."+cs, "r.AB.0.-")
 				emit(t, "r.AB."+f+"."+cs, "r.AB.0.-")
+			}
+			// a kill while the OTHER task is at work, then a whole edit / run / revert / run cycle of the first one: whatever the
+			// killed process left behind (a lock, a marker, a temporary file) must not freeze what later runs record
+			for _, cs := range specs(6) {
+				emit(t, "r.AB.0.-", "w.1.2", "r.AB."+f+"."+cs, "w.0.2", "r.AB.0.-", "w.0.1", "r.AB.0.-")
 			}
 		}
 	}
@@ -1302,9 +1323,12 @@ func gen(w *bufio.Writer, args map[string]string) {
 		randomHistoriesMode(w, brng, 100, 7, 0.5, 0.2, "b")
 	case prop == "C10":
 		for _, t := range []int{1, 2} { // always: a kill from inside each task position, a torn and a completed write
-			for _, cs := range []string{"K1", "K2", "P1t9", "P3t70", "P2", "P4"} {
+			for _, cs := range []string{"K1", "K2", "S1", "S2", "P1t9", "P3t70", "P2", "P4"} {
 				fmt.Fprintf(w, "T%db r.AB.0.- w.0.2 r.AB.1.%s w.0.1 r.AB.0.-\n", t, cs)
 			}
+		}
+		for _, cs := range []string{"K1", "P1", "P2t20", "P4"} {
+			fmt.Fprintf(w, "T2b r.AB.0.- w.1.2 r.AB.0.%s w.0.2 r.AB.0.- w.0.1 r.AB.0.-\n", cs)
 		}
 		binaryKillFamily(w, 17, off)
 		randomHistoriesMode(w, brng, 12, 7, 0.5, 0.2, "b")
